@@ -29,8 +29,9 @@ type Case struct {
 
 func Spec() *mon.Spec {
 	return &mon.Spec{
-		ID:    "C07",
-		Level: "exploration",
+		ID:      "C07",
+		RuleAdd: "Later additions (rounds 4-17): session modes (several exchanges on one client, idle gaps longer than the read timeout, slow first fragments, one exchange answered with an exception, a first caller under a 70 ms context deadline, a write slower than the read timeout); empty-read flavours (EOF, wrapped deadline, (0,nil), bytes together with a deadline error); all 256 exception codes; unit 0/255 and transaction id 0; CRC-lookalike payloads and replies that begin with the request bytes; FC17 replies that fill the frame; connections without read deadlines.",
+		Level:   "exploration",
 		Rule: "for every client kind {TCP, RTU-over-network, serial} x 10 functions x reply sizes {minimum, interior, maximum the constructors allow} the request is built by the library, the well-formed reply (or an exception reply) by the reference encoder, and delivered by a scripted transport according to a schedule of read events: every single cut position 1..L-1 x {0,1,5} timed-out reads at the cut (serial and replies > 64 bytes: all positions near the expected-length boundaries plus sampled ones in quick), all pairs of cuts for replies <= 16 bytes, PRNG triples, byte-at-a-time. " +
 			"Oracle: normal reply => err==nil, right type, Bytes()==reply; exception reply => nil response and errors.As finds the typed exception with the reply's unit/function/code; never a value from a strict prefix; never an error when the transport log shows the whole reply was handed over. Verdicts use the transport log (bytes handed over, reads after completion), not the clock; a timeout before complete delivery is retried with a 100x longer timeout. distinct key=(client, fc, L, schedule hash).",
 		Assumptions: []string{"scripted transport returns timed-out reads immediately (os.ErrDeadlineExceeded) and never blocks", "after 3 'timeout on complete reply' verdicts the remaining schedules of that case are skipped (each costs a full read timeout); skipped count is in the evidence"},
